@@ -177,6 +177,19 @@ def check_transitions(tr, ctx, what, allow_static_raise=True):
         ok = ctx.check(False, f'{what}: event row {r} corresponds to no change of site or inner site', {'row': r, 'states': states[:, a], 'inner': inner[:, a]}) and ok
     else:
         ctx.decided()
+    # (2b) the rows of an atom are a log: they appear in the order in which the changes happened, so that reading
+    # the table from top to bottom (as the jump detection does) replays the history
+    last_t = {}
+    unordered = None
+    for r in got:
+        if r[0] in last_t and r[5] <= last_t[r[0]] and unordered is None:
+            unordered = r
+        last_t[r[0]] = r[5]
+    if unordered is not None:
+        a = unordered[0]
+        ok = ctx.check(False, f'{what}: the rows of atom {a} are not in chronological order (row {unordered} follows a row with time {[x[5] for x in got if x[0] == a]})', {'atom': a, 'rows': [x for x in got if x[0] == a][:30]}) and ok
+    else:
+        ctx.decided()
     # (3) replay reconstructs both columns
     T, N = states.shape
     rep_s = np.empty_like(states)
